@@ -118,6 +118,33 @@ def run(ck):
             ck.case(key=("prefix", p, s))
     ck.count("prefix x unit")
 
+    # ---- written definitions whose own name also reads as prefix+unit (kilometer_per_second = kilo + meter_per_second):
+    #      every other spelling of that reading (kilomps, kmps, …) must denote the written definition
+    pspell, uspell = {}, {}
+    for k, d in ureg._prefixes.items():
+        if k:
+            pspell.setdefault(d.name, []).append(k)
+    for k in sp:
+        uspell.setdefault(ureg._units[k].name, []).append(k)
+    for n in canon:
+        for (pp, uu, _) in ureg.parse_unit_name(n):
+            if not pp or pp + uu != n or n not in exact or not exact[n]:
+                continue
+            for ps in pspell.get(pp, []):
+                for us in uspell.get(uu, []):
+                    name = ps + us
+                    if name in ureg._units:
+                        continue
+                    try:
+                        f, b = root(name)
+                    except Exception as e:
+                        oracle(False, "composed-written-name", f"{name} ({pp}+{uu} = written definition {n}) raised {type(e).__name__}", {"string": name})
+                        continue
+                    f0, b0 = root(n)
+                    oracle(F(f) == F(f0) and b == b0, "composed-written-name", f"root units of {name} = {f} differ from the written definition {n} = {f0}", {"string": name, "definition": n})
+                    add(regk.case_root(ureg, {name: F(1)}), {"root_of": name}, ("cwn", name))
+                    ck.count("composed-written-name")
+
     # ---- random compound units: factor is multiplicative; model agrees
     def rnd():
         return {rng.choice(rational): rng.choice(EXPS) for _ in range(rng.randint(1, 4))}
